@@ -24,6 +24,7 @@ import (
 	"os/exec"
 	"path/filepath"
 	"sort"
+	"strconv"
 	"strings"
 
 	"golang.org/x/tools/go/ast/astutil"
@@ -296,6 +297,16 @@ func main() {
 		fmt.Fprintf(os.Stderr, "instrument: fiber config: %v\n", err)
 		os.Exit(2)
 	}
+	regs, err := extractRouterRegistrations(filepath.Join(repoAbs, "s3api", "router.go"))
+	if err != nil {
+		fmt.Fprintf(os.Stderr, "instrument: router registrations: %v\n", err)
+		os.Exit(2)
+	}
+	cfgSrc += "\n// RouterRegistrations lists the method and pattern of every route registered in s3api/router.go.\nvar RouterRegistrations = []string{\n"
+	for _, r := range regs {
+		cfgSrc += fmt.Sprintf("\t%q,\n", r)
+	}
+	cfgSrc += "}\n"
 	gen := filepath.Join(*out, "fibercfg_gen.go")
 	must(os.WriteFile(gen, []byte(cfgSrc), 0o644))
 	overlay[filepath.Join(*harness, "gw", "fibercfg_gen.go")] = gen
@@ -517,4 +528,42 @@ func extractFiberConfig(path string) (string, error) {
 		return "", err
 	}
 	return string(out), nil
+}
+
+// extractRouterRegistrations lists "<METHOD> <pattern>" for every app.<Method>("pattern", ...) call.
+func extractRouterRegistrations(path string) ([]string, error) {
+	fset := token.NewFileSet()
+	f, err := parser.ParseFile(fset, path, nil, 0)
+	if err != nil {
+		return nil, err
+	}
+	var out []string
+	ast.Inspect(f, func(n ast.Node) bool {
+		call, ok := n.(*ast.CallExpr)
+		if !ok || len(call.Args) == 0 {
+			return true
+		}
+		se, ok := call.Fun.(*ast.SelectorExpr)
+		if !ok {
+			return true
+		}
+		switch se.Sel.Name {
+		case "Get", "Put", "Post", "Delete", "Head", "Patch", "All", "Options", "Connect", "Trace", "Add", "Group", "Route", "Mount":
+		default:
+			return true
+		}
+		if x, ok := se.X.(*ast.Ident); !ok || x.Name != "app" {
+			return true
+		}
+		lit, ok := call.Args[0].(*ast.BasicLit)
+		if !ok || lit.Kind != token.STRING {
+			out = append(out, strings.ToUpper(se.Sel.Name)+" <non-literal>")
+			return true
+		}
+		pat, _ := strconv.Unquote(lit.Value)
+		out = append(out, strings.ToUpper(se.Sel.Name)+" "+pat)
+		return true
+	})
+	sort.Strings(out)
+	return out, nil
 }
